@@ -2,4 +2,5 @@ SPECIFICATION Spec
 CONSTANTS
   Mrp = {m1, m2}
   Atomic = FALSE
+  InspectorCleansUp = FALSE
 INVARIANTS OneWriter
